@@ -38,7 +38,7 @@ def fz():
     return {"z": X}
 
 def root():
-    a = dds.keep("/q/x", fx)
+    a = dds.keep("/.q/x", fx)
     b = dds.keep("/q/y/z", fz)
     return (a, b)
 '''
@@ -186,7 +186,7 @@ def apply(s, op):
         if r != ("ok", want):
             bad(f"eval|wrong_result|{r[0]}", f"eval -> {r!r}, expected {want!r}")
             return probs
-        s.committed["/q/x"] = ("fx", s.x)
+        s.committed["/.q/x"] = ("fx", s.x)
         s.committed["/q/y/z"] = ("fz", s.x)
     elif k == "load":
         path = op[1]
@@ -222,7 +222,7 @@ def key(s):
     return (s.x, tuple(sorted(s.committed.items())), tuple(files), getattr(s, "cur", 0), tuple(hid(st) for st in stores))
 
 
-ALPHA = [("keep", "a"), ("keep", "b"), ("eval",), ("set", 0), ("set", 1), ("load", "/p/a"), ("load", "/q/y/z"), ("load", "/p/b"), ("load", "/q/x")]
+ALPHA = [("keep", "a"), ("keep", "b"), ("eval",), ("set", 0), ("set", 1), ("load", "/p/a"), ("load", "/q/y/z"), ("load", "/p/b"), ("load", "/.q/x")]
 
 
 ALPHA2 = [("keep", "a"), ("set", 0), ("set", 1), ("switch",), ("wipe_data_dir",), ("load", "/p/a")]
@@ -281,6 +281,27 @@ def check_legacy(i):
             open(os.path.join(root, "i", "blobs", key_ + ".meta"), "w").write(json.dumps({"protocol": ref, "timestamp_millis": 1}))
             dds.set_store("local", internal_dir=os.path.join(root, "i"), data_dir=os.path.join(root, "d"))
         st = api._store()
+        # a user registers a codec of their own on the live store (the documented way) before reading: the codecs that were
+        # there, legacy aliases included, stay available
+        from dds.structures import FileCodecProtocol, ProtocolRef
+        from dds.structures_utils import SupportedTypeUtils as STU
+
+        class _UserT:
+            pass
+
+        class _UserCodec(FileCodecProtocol):
+            def ref(self):
+                return ProtocolRef("user.c19")
+
+            def handled_types(self):
+                return [STU.from_type(_UserT)]
+
+            def serialize_into(self, blob, loc):
+                open(loc, "wb").write(b"u")
+
+            def deserialize_from(self, loc):
+                return _UserT()
+        st.codec_registry().add_file_codec(_UserCodec())
         r = call(lambda: st.fetch_blob(key_))
         ok = r[0] == "ok" and (r[1].equals(want) if hasattr(want, "equals") and hasattr(r[1], "equals") else (type(r[1]) is type(want) and r[1] == want))
         if not ok:
@@ -374,7 +395,7 @@ def check_fault(ct, target, at):
         pr = apply(s, op)          # retry: model and data-directory oracle as usual
         for k, w in pr:
             probs.append((k.replace("C19|", f"C19|after_fault@{fired[0]}|", 1), f"after a failed {fired} during {op} ({first[0]}): {w}"))
-        for lp in [("load", "/p/a"), ("load", "/p/b"), ("load", "/q/x"), ("load", "/q/y/z")]:
+        for lp in [("load", "/p/a"), ("load", "/p/b"), ("load", "/.q/x"), ("load", "/q/y/z")]:
             for k, w in apply(s, lp):
                 probs.append((k.replace("C19|", f"C19|after_fault@{fired[0]}|", 1), f"after a failed {fired} during {op} and a retry: {w}"))
         return probs, fired
